@@ -1154,7 +1154,8 @@ fn oracle_variant_sweep(seed: u64, rounds: u64) -> Oracle {
             or.fail(&format!("sweep:unswept-enum:{}", en), &format!("the hand-written readers dispatch on tags into enum {} — this sweep has no inputs for it", en), json!({"oracle": "c15.variant-sweep", "enum": en}));
             continue;
         }
-        let mut tags: Vec<String> = vec![];
+        // the tags this harness knows (a rewrite may hide tags from the syntactic scan), then what the source shows
+        let mut tags: Vec<String> = probe::KNOWN_TAGS.iter().find(|(e, _)| *e == en).map(|(_, ts)| ts.iter().map(|t| t.to_string()).collect()).unwrap_or_default();
         for a in d["reader"].as_array().unwrap() {
             for t in a["tags"].as_array().unwrap() {
                 let t = t.as_str().unwrap().to_string();
